@@ -32,11 +32,14 @@ def one(name):
         if r.returncode != 0: return ["%-14s WORKTREE FAILED %s" % (name, r.stderr.strip()[:200])]
         r = subprocess.run(["git", "-C", tree, "apply", os.path.join(d, "patch.diff")], capture_output=True, text=True)
         if r.returncode != 0: return ["%-14s PATCH DOES NOT APPLY: %s" % (name, r.stderr.strip()[:200])]
+        # a private copy of the machinery, so that edits to /verif during a long sweep cannot disturb it
+        snap = os.path.join(base, "verif")
+        subprocess.run(["rsync", "-a", "--exclude", "bin", "--exclude", "replays", "--exclude", ".git", "--exclude", "seeded", ROOT + "/", snap + "/"], check=True)
         env = dict(os.environ, VERIF_REPO=tree, VERIF_OUT=os.path.join(base, "out"), VERIF_TMP=os.path.join(base, "tmp"))
         os.makedirs(env["VERIF_TMP"], exist_ok=True)
         for p in props:
             t = time.time()
-            r = subprocess.run([os.path.join(ROOT, "check"), p, tier], capture_output=True, text=True, cwd=ROOT, env=env)
+            r = subprocess.run([os.path.join(snap, "check"), p, tier], capture_output=True, text=True, cwd=snap, env=env)
             viol = [l for l in r.stdout.splitlines() if l.startswith("VIOLATION")]
             det = r.returncode == 1 and len(viol) > 0
             first = viol[0].replace(env["VERIF_OUT"], "/verif")[:300] if viol else ""
